@@ -604,6 +604,7 @@ func (c *c16) RunCase(w *core.Worker, idx int, seed uint64, res *core.CaseResult
 		if out == nil {
 			return
 		}
+		w.Progress()
 		runs++
 		tk := strings.Join(sr.Trace, ">")
 		if !traces[tk] {
